@@ -3,6 +3,7 @@
   Property theorems over NutsModel/C08 (tree.go, xor.go, iblt.go, treestore.go, dag.go, state.go, consistency.go).
 -/
 import NutsModel.C08.Spec
+import NutsModel.C08.Metric
 import NutsModel.Facts.C08
 import NutsProofs.Lemmas.C08Tree
 import NutsProofs.Lemmas.C08Data
@@ -956,5 +957,58 @@ theorem persist_full_eq_persist {G : Type} (t : Tree G) (shelf : List (Nat × G)
   have hf : shelf.filter (fun kv => !t.orphaned.contains kv.1) = shelf := by
     rw [h]; exact List.filter_eq_self.mpr (fun _ _ => by simp)
   simp only [hf]
+
+/-! ### the Prometheus counter `nuts_dag_transactions_total` (state.go Start + third AfterCommit hook of Add) -/
+
+theorem checkPageWith_txs {n : Nat} (c : Cfg) (lc : Nat) (s : State n) : (checkPageWith c lc s).disk.txs = s.disk.txs := by
+  unfold checkPageWith
+  split
+  · rfl
+  · simp only
+    split
+    · split <;> rfl
+    · rfl
+
+/-- the life cycle of one state object with its counter: opened on any reachable file content (fresh collector),
+    started once, then any Add calls (any transaction, payload, fault), repair steps and signals -/
+inductive MReach : MState NB → Prop
+  | start {s} : Reachable s → MReach (MState.start { s := s })
+  | add {m} (tx : Tx) (opt : AddOpts) : MReach m → MReach (MState.add cfg m tx opt).1
+  | checkPage {m : MState NB} : MReach m → MReach { m with s := checkPage cfg m.s }
+  | signal {m : MState NB} : MReach m → MReach { m with s := signalIncorrect m.s }
+
+/-- **The transaction counter metric equals the size of the stored set** in every state of that life cycle — it is
+    not moved by rejected, rolled-back or duplicate Adds, and counts each admitted transaction once. -/
+theorem metric_tracks_stored_set {m : MState NB} (r : MReach m) :
+    Reachable m.s ∧ m.metric = m.s.disk.txs.length := by
+  induction r with
+  | start hs =>
+    refine ⟨hs, ?_⟩
+    simp only [MState.start, metricAfterStart, Nat.zero_add]
+    exact (state_refines_spec hs).count
+  | @add m0 tx opt _ ih =>
+    obtain ⟨hr, hm⟩ := ih
+    refine ⟨Reachable.add tx opt hr, ?_⟩
+    have h := stored_set_changes_only_on_success hr tx opt
+    simp only [MState.add, metricAfterAdd]
+    by_cases hok : (Nuts.C08.add cfg m0.s tx opt).2 = .ok ()
+    · rcases h.2 hok with ⟨hs, hp⟩ | ⟨ht, hp⟩
+      · simp only [hok, hp, true_and, Bool.true_eq_false, if_false, hs, hm]
+      · simp only [hok, hp, true_and, if_true, ht, List.length_append, List.length_singleton, hm]
+    · simp only [hok, false_and, if_false, h.1 hok, hm]
+  | checkPage _ ih => exact ⟨Reachable.checkPage ih.1, by rw [ih.2]; exact (congrArg List.length (checkPageWith_txs cfg _ _)).symm⟩
+  | signal _ ih => exact ⟨Reachable.signalIncorrect ih.1, ih.2⟩
+
+
+def exM0 : MState NB := MState.start { s := State.init cfg }
+/-- non-vacuity: start on the empty file, admit a root, reject a child with a missing prev, fail a commit, re-add the root -/
+example : (MState.add cfg exM0 exRoot {}).1.metric = 1 ∧
+    (MState.add cfg (MState.add cfg exM0 exRoot {}).1 exRoot {}).1.metric = 1 ∧
+    (MState.add cfg exM0 exChild {}).1.metric = 0 ∧
+    (MState.add cfg exM0 exRoot { commitFails := true }).1.metric = 0 := by decide
+
+/-- calling `Start` a second time on the same object counts the stored transactions twice (witness) — the node calls it
+    once per state object -/
+example : (MState.start (MState.add cfg exM0 exRoot {}).1).metric = 2 := by decide
 
 end Nuts.C08.Props
